@@ -35,7 +35,7 @@ def circular_lon(repo, rep):
                 a, b = n.args
                 for x, y in ((a, b), (b, a)):
                     if isinstance(y, ast.BinOp) and isinstance(y.op, ast.Sub) and repo.const(fi.module, y.left) == 360 and unparse(y.right) == unparse(x):
-                        if (name and unparse(x) == name) or sub in list(ast.walk(x)):
+                        if (name and unparse(x) == name) or any(sub is z_ for z_ in ast.walk(n)):
                             folded = True
                             fold_node = n
             if isinstance(n, ast.BinOp) and isinstance(n.op, ast.Sub) and isinstance(n.left, ast.BinOp) and isinstance(n.left.op, ast.Mod) \
@@ -383,16 +383,38 @@ def tolerance(repo, rep):
         else:
             rep.fail("R-C14-5", fi.file, s.lineno, fi.qualname, inner[:100], "beyond tolerance the selection must fail (missing='raise') or skip the point (missing='ignore')")
     fi = repo.func(f"{SEL}.Coordinates.nearer")
-    t = unparse(fi.node).replace(" ", "")
-    srt_ = dsort_ = None
-    for a_ in ast.walk(fi.node):
-        if isinstance(a_, ast.Assign) and isinstance(a_.targets[0], ast.Name):
-            if isinstance(a_.value, ast.Call) and call_name(a_.value).split(".")[-1] == "argsort" and len(a_.value.args) == 1:
-                srt_, dname_ = a_.targets[0].id, unparse(a_.value.args[0])
-    for a_ in ast.walk(fi.node):
-        if isinstance(a_, ast.Assign) and isinstance(a_.targets[0], ast.Name) and srt_ and unparse(a_.value).replace(" ", "") == f"{dname_}[{srt_}]":
-            dsort_ = a_.targets[0].id
-    if srt_ and dsort_ and f"{srt_}[{dsort_}<=tolerance][:max_sites]" in t:
+    # neighbours = argsort(dist)[ dist[argsort(dist)] <= tolerance ][:max_sites]   (the sorted distances through a temporary or in place)
+    from ..astutil import resolve as _res
+    okn = False
+    for rr_ in ast.walk(fi.node):
+        if not isinstance(rr_, ast.Return) or rr_.value is None:
+            continue
+        v_ = rr_.value
+        if isinstance(v_, ast.Tuple) and v_.elts:
+            v_ = v_.elts[0]
+        for _ in range(3):
+            if isinstance(v_, ast.Name):
+                v_ = _res(fi.node, v_, before=rr_.lineno + 1) or v_
+        # v_ = X[mask][:max_sites]
+        if not (isinstance(v_, ast.Subscript) and isinstance(v_.slice, ast.Slice) and v_.slice.lower is None and unparse(v_.slice.upper) == "max_sites"):
+            continue
+        inner = v_.value
+        if not isinstance(inner, ast.Subscript):
+            continue
+        order, mask = inner.value, inner.slice
+        order_r = _res(fi.node, order, before=rr_.lineno + 1) if isinstance(order, ast.Name) else order
+        if not (isinstance(order_r, ast.Call) and call_name(order_r).split(".")[-1] == "argsort" and len(order_r.args) == 1):
+            continue
+        dname = unparse(order_r.args[0])
+        from ..astutil import rel as _rel2
+        r_ = _rel2(mask, lambda e: unparse(e) == "tolerance") if isinstance(mask, ast.Compare) else None
+        if r_ is None or r_[1] != ">=":          # tolerance >= sorted distance
+            continue
+        sd = r_[2]
+        sd_r = _res(fi.node, sd, before=rr_.lineno + 1) if isinstance(sd, ast.Name) else sd
+        if isinstance(sd_r, ast.Subscript) and unparse(sd_r.value) == dname and unparse(sd_r.slice) in (unparse(order), unparse(order_r)):
+            okn = True
+    if okn:
         rep.ok("R-C14-5", f"{fi.file}:{fi.node.lineno} nearer", "argsort by distance, <= tolerance, [:max_sites]", "closest first, within tolerance, at most max_sites")
     else:
         rep.fail("R-C14-5", fi.file, fi.node.lineno, fi.qualname, "neighbour filter", "neighbours = stations sorted by distance, within tolerance (<=), truncated to max_sites")
